@@ -15,7 +15,7 @@ RULE = ('E1 enumeration of universe trees: depth 1-3, 2 or 3 cells per universe 
         'universe cells with their own TRCL, cards of a universe contiguous / interleaved with other universes / in reverse order, options default / --max-inline-score 0 / always-inline; '
         'oracle = reference locate() + provenance chain at one witness per cell of the joint plane '
         'arrangement (complete); non-trivial = at least two distinct provenance labels realised; '
-        'distinct = distinct deck text + options; also: cards of a universe interleaved / reversed, U=-n, importance 0 or no material on a filler cell, filled cell keeping a material, container written as a union of two halves, LIKE / explicit copy of a container, 4-16 nesting levels (scenario deep)')
+        'distinct = distinct deck text + options; also: cards of a universe interleaved / reversed, U=-n, importance 0 or no material on a filler cell, filled cell keeping a material, container written as a union of two halves, LIKE / explicit copy of a container, 4-16 nesting levels (scenario deep), an orientation-reversing matrix, rotations alternating with shifts in the deep nestings')
 ASSUMPTIONS = [
     'a FILL transformation, when present, replaces the container TRCL for placing the universe (upstream '
     'characterisation of MCNP, DESIGN 5); otherwise the universe moves with the container TRCL',
